@@ -21,6 +21,18 @@ def ob(name, freq, defs, npop=6, **kw):
              bounds='%d pops over a cache of 4 (%d refills); %s' % (npop, (npop + 2) // 3, ' '.join(defs)),
              outside='the real cache size 64; TZID and non-Gregorian streams; streams followed for thousands of occurrences',
              stubs=['hook ECHSE_VERIF_CCH=4', 'echs_instant_sort replaced by a 3-element insertion sort (its correctness for n <= 5 is C20)', 'word-wise memcpy/memmove/memset', 'stream object initialised as __make_evrrul() does for one UTC Gregorian rule'])
+    if freq == 4:
+        # rrul_fill_dly: exact bounds per loop (list scans, time-of-day enumeration, month carry, main loop); checked by the unwinding assertions
+        nt = 1
+        for d_ in defs:
+            if d_.startswith('NH=') or d_.startswith('NM='):
+                nt *= int(d_[3:])
+        o['unwindset'].update({'rrul_fill_dly.0': 3, 'rrul_fill_dly.1': 3, 'rrul_fill_dly.2': 3, 'rrul_fill_dly.3': 3, 'rrul_fill_dly.4': 3, 'rrul_fill_dly.5': 3,
+                               'rrul_fill_dly.6': nt + 2, 'rrul_fill_dly.7': 3, 'rrul_fill_dly.8': npop + 4})
+    if freq == 5:
+        o['unwindset'].update({'rrul_fill_Hly.8': 2, 'rrul_fill_Hly.9': 3, 'rrul_fill_Hly.10': 3})
+    if freq == 7:
+        o['unwindset'].update({'rrul_fill_Sly.12': 3})
     o.update(kw)
     return o
 Q = ('quick', 'thorough'); T = ('thorough',)
